@@ -28,6 +28,19 @@ def copy_refinish(case):
 SIGNATURES = {'copy_refinish': copy_refinish}
 
 
+def book_cells(books):
+    """{(book, sheet, cell): value} of what ExcelModel.write returned"""
+    from formulas.excel import BOOK
+    out = {}
+    for bk, dd in books.items():
+        for ws in dd[BOOK].worksheets:
+            for row in ws.iter_rows():
+                for c in row:
+                    if c.value is not None:
+                        out[(bk, ws.title, c.coordinate)] = repr(c.value)
+    return out
+
+
 def new_run():
     return Run('C17', RULE, SIGNATURES)
 
@@ -86,6 +99,7 @@ def check(run):
         consts = [k_ for k_, v in d.items() if not (isinstance(v, str) and v.startswith('=')) and v != '#EMPTY' and ':' not in k_.split('!')[-1] and "]'!" not in k_]
         forms = [k_ for k_, v in d.items() if isinstance(v, str) and v.startswith('=') and ':' not in k_.split('!')[-1] and "]'!" not in k_]
         ops = []
+        written = []
         handles = {'orig': (orig, twin_o), 'copy': (cp, twin_c)}
         mutated_between = False
         last = None
@@ -131,7 +145,25 @@ def check(run):
                         run.violation('to_dict of the %s handle differs from the twin after %s' % (h, ops), c2)
                         break
                 elif op == 'write':
-                    live.write(); twin.write()
+                    ov = {kk: rnd.choice([1, 2, 7, 0.5]) for kk in rnd.sample(consts, min(1, len(consts)))} if rnd.random() < 0.6 else {}
+                    ba = live.write(solution=live.calculate(inputs=ov) if ov else live.calculate())
+                    bb = twin.write(solution=twin.calculate(inputs=ov) if ov else twin.calculate())
+                    sa, sb = book_cells(ba), book_cells(bb)
+                    if sa != sb:
+                        kk = [x for x in sb if sa.get(x) != sb[x]] or [x for x in sa if x not in sb]
+                        run.violation('write() on the %s handle after %s: cell %s holds %r, a never-copied twin writes %r' % (
+                            h, ops, kk[0], sa.get(kk[0]), sb.get(kk[0])), dict(c2, node=str(kk[0])))
+                        break
+                    if any(ba is w_[0] for w_ in written):
+                        run.violation('write() on the %s handle returns the very books an earlier write() returned' % h, c2)
+                        break
+                    written.append((ba, sa, h, len(ops)))
+                # what earlier write() calls returned must not change afterwards
+                stale = [(w_[2], w_[3]) for w_ in written if book_cells(w_[0]) != w_[1]]
+                if stale:
+                    run.violation('the books returned by write() on the %s handle (operation %d) were changed by later operations %s' % (
+                        stale[0][0], stale[0][1], ops[stale[0][1]:]), c2)
+                    break
             except Exception as ex:
                 run.violation('%s on the %s handle raised %s: %s' % (op, h, type(ex).__name__, str(ex)[:100]), c2)
                 break
